@@ -111,10 +111,18 @@ cases, meta, hist = [], [], {}
 accepts = 0
 
 
-def run_pair(kind, ksr, skr, pol, table, strict=True, desc=None):
+def run_pair(kind, ksr, skr, pol, table, strict=True, desc=None, layout="single"):
     global accepts
     kreq, kresp = skrgen.k_request(ksr), skrgen.k_response(skr)
-    mods = None if table is None else [FakeModule(table)]
+    if table is None:
+        mods = None
+    elif layout == "second":          # an HSM without the key is configured first, the key lives on the second one
+        mods = [FakeModule({}), FakeModule(table)]
+    elif layout == "split":           # the keys are spread over two HSMs, an empty one in between
+        items = list(table.items())
+        mods = [FakeModule(dict(items[::2])), FakeModule({}), FakeModule(dict(items[1::2]))]
+    else:
+        mods = [FakeModule(table)]
     r = vlib.run_impl(check_skr_and_ksr, kreq, kresp, pol, mods)
     acc = r[0] == "ok"
     accepts += acc
@@ -175,6 +183,9 @@ for rnd in range(12 * SCALE):
     # honest successors (keys as published), every flag subset, with and without token
     for fl in [(a, b, c) for a in (True, False) for b in (True, False) for c in (True, False)]:
         run_pair("honest", successor(skr, zskpol), skr, pol(fl), token_for(skr) if R.random() < 0.8 else None)
+    for lay in ("second", "split"):
+        run_pair("honest-several-hsms", successor(skr, zskpol), skr, pol(), token_for(skr), desc={"hsm_layout": lay}, layout=lay)
+        run_pair("token-absent-several-hsms", successor(skr, zskpol), skr, pol(), token_for(skr, "absent"), desc={"hsm_layout": lay}, layout=lay)
     # replayed ids
     k = successor(skr, zskpol, rid=skr["id"])
     run_pair("replayed-request-id", k, skr, pol(), token_for(skr))
